@@ -47,19 +47,19 @@ Diagnose ==
     IF Rec.ev = "raise" THEN Rec.exc
     ELSE IF Rec.ev \in {"lanczos", "arnoldi"} THEN
         (IF ~Rec.sizes_consistent THEN "returned sizes are mutually inconsistent or entries are not finite"
-         ELSE IF ~(Rec.ambiguous \/ Rec.k = Kexp) THEN "spec: number of returned Krylov vectors differs from min(m, kdim)"
-         ELSE IF ~(Rec.ambiguous \/ (Rec.warned <=> Rec.k < Rec.m)) THEN "spec: warning / early termination mismatch"
+         ELSE IF Strict /\ (~(Rec.ambiguous \/ Rec.k = Kexp)) THEN "spec: number of returned Krylov vectors differs from min(m, kdim)"
+         ELSE IF Strict /\ (~(Rec.ambiguous \/ (Rec.warned <=> Rec.k < Rec.m))) THEN "spec: warning / early termination mismatch"
          ELSE IF ~Rec.ortho_ok THEN "Krylov vectors not orthonormal"
          ELSE IF ~Rec.proj_ok THEN "projected map differs from the returned tridiagonal / Hessenberg matrix"
          ELSE "coefficient structure (real alpha, positive beta / Hessenberg form)")
     ELSE IF Rec.ev = "eigh" THEN
-        (IF Rec.routed # "lanczos" THEN "spec: eigh_krylov did not go through Lanczos"
+        (IF Strict /\ (Rec.routed # "lanczos") THEN "spec: eigh_krylov did not go through Lanczos"
          ELSE IF ~Rec.ritz_ge_lmin THEN "lowest Ritz value below the smallest eigenvalue"
          ELSE IF ~Rec.ritz_le_rayleigh THEN "lowest Ritz value above the Rayleigh quotient of the start vector"
          ELSE IF Exhausted /\ ~Rec.ritz_eq_reachable_min THEN "exhausted Krylov space: lowest Ritz value is not the smallest reachable eigenvalue"
          ELSE "Ritz vectors not orthonormal / Ritz values not their Rayleigh quotients / shapes")
     ELSE IF Rec.ev = "expm" THEN
-        (IF Rec.routed # (IF Rec.hermitian THEN "lanczos" ELSE "arnoldi") THEN "spec: expm_krylov routed to the wrong iteration"
+        (IF Strict /\ Rec.routed # (IF Rec.hermitian THEN "lanczos" ELSE "arnoldi") THEN "spec: expm_krylov routed to the wrong iteration"
          ELSE IF Rec.hermitian /\ Rec.imag_time /\ ~Rec.norm_ok THEN "Hermitian exponential with imaginary time does not preserve the norm"
          ELSE IF Exhausted /\ ~Rec.exact_ok THEN "exhausted Krylov space: result differs from expm(dt A) v"
          ELSE "shape of the result")
